@@ -47,7 +47,9 @@ InitState ==
   [rec |-> [i \in Ids |-> None], lastDid |-> 0, lastProc |-> -100000, lastQU |-> FALSE,
    active |-> FALSE, types |-> {}, delay |-> 0, forced |-> "none", bs |-> 0, r |-> -1, nstart |-> 0, lastQ |-> -1,
    hist |-> [ty \in 1..2 |-> [t |-> -100000, ka |-> {}]], canAns |-> {},
-   sat |-> {}, qT |-> -1, qKa |-> {}, qTypes |-> {}, qTc |-> FALSE, qNeed |-> {}, err |-> ""]
+   sat |-> {}, qT |-> -1, qKa |-> {}, qTypes |-> {}, qTc |-> FALSE, qNeed |-> {},
+   hold |-> {}, lastTcSrc |-> 0,          \* truncated queries heard from the link, held per source until their continuation
+   err |-> ""]
 
 WLo(r, k, delay) == r.c + (750 + 100 * k) * r.ttl - delay
 WHi(r, k, delay) == r.c + (750 + 100 * k) * r.ttl + (k + 1) * delay
@@ -81,13 +83,43 @@ Pre(st0, t) ==
   ELSE IF Bad(MissedDeadline(st, t), "C10_RefreshDue") THEN Fail(st, "C10_RefreshDue")
   ELSE st
 
+(* ------------------------------------------------------------------ queries heard from the link
+   "heard it as an authoritative responder": only while this instance has services registered.  A query with the TC bit is held
+   per source address until a packet without TC arrives from that source or the (logged) hold time is over; the questions and
+   known answers of all its packets then count as one query, heard at the arrival of its last packet. *)
+Assembled(st, pkts, t) ==
+  LET asked == {ty \in 1..2 : \E k \in 1..Len(pkts) : \E j \in 1..Len(pkts[k].hq) : pkts[k].hq[j].ty = ty /\ ~pkts[k].hq[j].qu}
+      ka == UNION {ToSet(pkts[k].hka) : k \in 1..Len(pkts)}
+  IN [st EXCEPT !.hist = [ty \in 1..2 |-> IF ty \in st.canAns /\ ty \in asked THEN [t |-> t, ka |-> ka] ELSE st.hist[ty]]]
+HoldOf(st, src) == CHOOSE h \in st.hold : h.src = src
+HeardQuery(st, e) ==
+  IF st.canAns = {} THEN st                                   \* nothing registered: queries are not looked at
+  ELSE LET held == \E h \in st.hold : h.src = e.src
+           old == IF held THEN HoldOf(st, e.src).pkts ELSE <<>>
+           pk == [hq |-> e.hq, hka |-> e.hka, did |-> e.did]
+       IN IF e.tcq
+          THEN IF \E k \in 1..Len(old) : old[k].did = e.did THEN st             \* the same bytes are waiting already
+               ELSE [st EXCEPT !.hold = {h \in @ : h.src # e.src} \cup {[src |-> e.src, pkts |-> Append(old, pk), deadline |-> -1, last |-> e.t]},
+                               !.lastTcSrc = e.src]
+          ELSE Assembled([st EXCEPT !.hold = {h \in @ : h.src # e.src}], Append(old, pk), e.t)
+OnTcDraw(st, e) ==
+  IF \E h \in st.hold : h.src = st.lastTcSrc
+  THEN LET h == HoldOf(st, st.lastTcSrc) IN [st EXCEPT !.hold = (@ \ {h}) \cup {[h EXCEPT !.deadline = e.t + e.v]}]
+  ELSE st
+RECURSIVE FireHolds(_, _)
+FireHolds(st, t) ==
+  LET due == {h \in st.hold : h.deadline >= 0 /\ h.deadline <= t} IN
+  IF due = {} THEN st
+  ELSE LET h == CHOOSE x \in due : \A y \in due : x.deadline <= y.deadline
+       IN FireHolds(Assembled([st EXCEPT !.hold = @ \ {h}], h.pkts, h.last), t)
+
 (* ------------------------------------------------------------------ events *)
 OnRecv(st0, e) ==
   LET st == CloseQuery(st0) IN
   IF st.err # "" THEN st
   ELSE LET dup == e.did = st.lastDid /\ e.t - 1000 < st.lastProc /\ ~st.lastQU IN
     IF dup THEN st
-    ELSE IF e.q THEN [st EXCEPT !.lastDid = e.did, !.lastProc = e.t, !.lastQU = e.qu]
+    ELSE IF e.q THEN HeardQuery([st EXCEPT !.lastDid = e.did, !.lastProc = e.t, !.lastQU = e.qu], e)
     ELSE LET nr == Ingest(st.rec, e.items, e.t) IN
          [st EXCEPT !.lastDid = e.did, !.lastProc = e.t, !.lastQU = FALSE, !.rec = nr,
                     !.sat = {p \in st.sat : nr[p[1]] = st.rec[p[1]]}]
@@ -166,14 +198,14 @@ Heard(st, e) ==
 
 Step(st0, e) ==
   IF e.ev = "start" THEN InitState
-  ELSE LET st1 == SkipDue(Pre(st0, e.t), e.t) IN
+  ELSE LET st1 == SkipDue(Pre(FireHolds(st0, e.t), e.t), e.t) IN
    IF st1.err # "" THEN st1
-   ELSE CASE e.ev = "recv"    -> LET a == OnRecv(st1, e) IN
-                                 IF a.err = "" /\ e.q /\ a.lastProc = e.t /\ a.lastDid = e.did /\ ~e.tcq THEN Heard(a, e) ELSE a
+   ELSE CASE e.ev = "recv"    -> OnRecv(st1, e)
           [] e.ev = "query"   -> OnQuery(st1, e)
           [] e.ev = "bstart"  -> [CloseQuery(st1) EXCEPT !.active = TRUE, !.types = ToSet(e.types), !.delay = e.delay,
                                                         !.forced = e.forced, !.bs = e.t, !.r = -1, !.nstart = 0, !.lastQ = -1, !.sat = {}]
-          [] e.ev = "rand"    -> IF e.site = "first" /\ st1.active /\ st1.r < 0 THEN [st1 EXCEPT !.r = e.v] ELSE st1
+          [] e.ev = "rand"    -> IF e.site = "tc" THEN OnTcDraw(st1, e)
+                                 ELSE IF e.site = "first" /\ st1.active /\ st1.r < 0 THEN [st1 EXCEPT !.r = e.v] ELSE st1
           [] e.ev = "reg"     -> [st1 EXCEPT !.canAns = @ \cup {e.ty}]
           [] e.ev = "bcancel" -> [CloseQuery(st1) EXCEPT !.active = FALSE]
           [] e.ev = "cb"      -> OnRemoved(st1, e)
